@@ -63,6 +63,8 @@ func main() {
 	switch os.Args[1] {
 	case "spork-halt-child":
 		sporkHaltChild()
+	case "spork-restart-child":
+		sporkRestartChild()
 	case "rpcserver-child":
 		sd, _ := strconv.ParseInt(os.Args[2], 10, 64)
 		nr, _ := strconv.Atoi(os.Args[3])
